@@ -532,7 +532,16 @@ func (o *OpenAPI3Importer) loadTypeSchema(name string, schema *openapi3.Schema) 
 			}
 		}
 
-		for fname, prop := range schema.Properties {
+		// in name order: building a field also adds the types of inline objects, two of which can get the same name
+		// (Foo.bar.baz and Foo.bar_baz are both Foo_bar_baz), and the sort of the types keeps such pairs in the order
+		// they were added in.
+		fnames := make([]string, 0, len(schema.Properties))
+		for fname := range schema.Properties {
+			fnames = append(fnames, fname)
+		}
+		sort.Strings(fnames)
+		for _, fname := range fnames {
+			prop := schema.Properties[fname]
 			f, err := o.buildField(fname, prop)
 			if err != nil {
 				return nil, err
